@@ -131,6 +131,8 @@ def arg_sets(ctx):
                 a["dtype"] = rng.choice([np.float32, np.complex64, np.float64])
             if rng.random() < 0.25:
                 a["max_attempts"] = rng.choice([10, 60])
+            if a["crop_corner"] and rng.random() < 0.4:
+                a["crop_corner"] = rng.choice([np.bool_(True), 1])      # a truthy flag that is not the builtin True
             A.append(a)
     # the two argument tuples that used to hang, and boundary requests
     A.append({"img_shape": (16, 16), "accel": 11.5})
